@@ -49,6 +49,15 @@ def getTrials (env : Env) (ids : Option (List Nat)) (st : Option Status) : List 
     (match ids with | none => true | some l => decide (t.id ∈ l)) &&
     (match st with | none => true | some s => decide (t.st = s))
 
+/-- the FULL `GetTrials` filter (`vz.TrialFilter.__call__`, and the loop of `InRamPolicySupporter.GetTrials`):
+ids ∧ min_id ∧ max_id ∧ status, every condition optional; the table order is kept -/
+def getTrialsF (env : Env) (ids : Option (List Nat)) (minId maxId : Option Nat) (st : Option Status) : List Trial :=
+  env.filter fun t =>
+    (match ids with | none => true | some l => decide (t.id ∈ l)) &&
+    (match minId with | none => true | some m => decide (m ≤ t.id)) &&
+    (match maxId with | none => true | some m => decide (t.id ≤ m)) &&
+    (match st with | none => true | some s => decide (t.st = s))
+
 /-! ### `IdDeduplicatingTrialLoader` -/
 
 structure Cfg where
